@@ -46,6 +46,16 @@ CHECKS = {
         design="7 (C08), 4 (R1)",
         technique="deterministic simulation: scripted head latency + cancellation, reference soft-cut interpreter with choice-function oracle",
     ),
+    "C11": dict(
+        text="Seeded exploration of programs in which several states reach project goals whose bodies read the projected value "
+             "non-relationally and are suspended and resumed (scripted leaf latency, yields), driven by a consumer history over one "
+             "long-lived Query (sequential re-runs, up to three interleaved iterators, drops half way): every exhausted iterator "
+             "must return the reference interpreter's multiset (projection evaluated on the reaching state's own value) and "
+             "nothing may panic. The property only fails when a sibling state or an earlier run touches the projection between "
+             "two steps of a branch, which is a schedule/history dimension.",
+        design="7 (C11), 1 (N2, N3)",
+        technique="deterministic simulation: scripted suspensions + consumer histories (restart, interleave, cancel) against a reference interpreter",
+    ),
     "C16": dict(
         text="Seeded exploration of CLP(FD) programs x constraint re-run / labeling orders: the store containers are replaced "
              "by simulator-ordered ones, so the order in which constraints wake up, domains move between variables and "
